@@ -614,6 +614,10 @@ class Interp:
             if o is None:
                 return False
             self.oos('char compared with non-string', node)
+        if isinstance(a, PyTuple) and S.is_val(b):
+            a = self.to_val(a, node)
+        if isinstance(b, PyTuple) and S.is_val(a):
+            b = self.to_val(b, node)
         if isinstance(a, PyTuple) and isinstance(b, PyTuple):
             if len(a.items) != len(b.items):
                 return False
